@@ -27,11 +27,20 @@ struct Case
     uint8_t cls{0};  // PayloadClass
     std::vector<Step> history;
     Step last;
+    uint8_t fromRaw{0};   // 0 default-constructed object; 1 object constructed from raw bytes (a received payload) ...
+    uint8_t rawSlack{0};  // ... with this many bytes of slack after the data, as the validators accept
+    Step rawStep;
     void io(Ar& a)
     {
         a.num("cls", cls);
         a.vec("history", history);
         last.io(a);
+        if (a.writing || a.peekName() == "fromRaw")
+        {
+            a.num("fromRaw", fromRaw);
+            a.num("rawSlack", rawSlack);
+            rawStep.io(a);
+        }
     }
 };
 
@@ -320,9 +329,27 @@ static Verdict checkContent(const lib::InterfacePayload& p, const RecipeFields& 
 }
 
 template <class P>
+static P initialObject(const Case& c)
+{
+    if (!c.fromRaw)
+        return P();
+    // prior state from raw bytes: the content of rawStep laid out by the independent builders, plus slack bytes
+    PacketRecipe r;
+    static const uint8_t kinds[] = {rkCan, rkCanFd, rkLin, rkEthernet, rkAnalog, rkCmStatus, rkIfStatus};
+    r.kind = kinds[c.cls % 7];
+    RecipeFields f = fieldsFor(c.cls, c.rawStep);
+    Bytes b = oracleBytes(r, f);
+    Bytes slack = fillBytes(c.rawStep.seed ^ 0x51ac, c.rawSlack);
+    b.insert(b.end(), slack.begin(), slack.end());
+    return P(b.data(), b.size());
+}
+
+template <class P>
 static Verdict runOn(const Case& c, Info& info)
 {
-    P obj;
+    P obj = initialObject<P>(c);
+    if (c.fromRaw)
+        info.tag(c.rawSlack ? "object_started_from_raw_bytes_with_slack" : "object_started_from_raw_bytes");
     bool hadOtherLength = false, oddList = false;
     for (size_t si = 0; si < c.history.size(); ++si)
     {
@@ -392,7 +419,7 @@ static Verdict runOn(const Case& c, Info& info)
         info.tag("object_held_data_of_another_length_before");
     if (oddList)
         info.tag("odd_length_list_or_padded_string");
-    info.nontrivial = hadOtherLength || oddList;
+    info.nontrivial = hadOtherLength || oddList || c.fromRaw;
     return Verdict::pass();
 }
 
@@ -463,6 +490,21 @@ static rc::Gen<Case> genCase(int tier)
             c.history.push_back(*genStep(c.cls, tier));
         c.last = *genStep(c.cls, tier);
         c.last.headerFirst = 1;
+        if (*range<int>(0, 2) == 0)
+        {
+            c.fromRaw = 1;
+            c.rawSlack = *rc::gen::weightedElement<uint8_t>({{2, 0}, {3, 1}, {2, 2}, {2, 8}, {1, 40}});
+            c.rawStep = *genStep(c.cls, tier);
+            // half of these: the first write has exactly the lengths the raw content has (nothing "changes" in size)
+            if (*range<int>(0, 1) == 0)
+            {
+                Step& first = c.history.empty() ? c.last : c.history.front();
+                first.len = c.rawStep.len;
+                first.len2 = c.rawStep.len2;
+                for (int i = 0; i < 4; ++i)
+                    first.strLen[i] = c.rawStep.strLen[i];
+            }
+        }
         return c;
     });
 }
@@ -488,6 +530,28 @@ static void enumerate(int tier, const std::function<bool(const Case&)>& emit)
                 if (!emit(c))
                     return;
             }
+    // objects that start from raw bytes with slack; first write of exactly the same / another length
+    for (uint8_t cls = 0; cls < 7; ++cls)
+        for (uint32_t len = 0; len <= 24; ++len)
+            for (uint8_t slack : {uint8_t(0), uint8_t(1), uint8_t(2), uint8_t(9)})
+                for (int same = 0; same < 2; ++same)
+                {
+                    Case c;
+                    c.cls = cls;
+                    c.fromRaw = 1;
+                    c.rawSlack = slack;
+                    c.rawStep.seed = len * 3 + cls;
+                    c.rawStep.len = len;
+                    c.rawStep.len2 = len % 5;
+                    for (int i = 0; i < 4; ++i)
+                        c.rawStep.strLen[i] = static_cast<uint16_t>((len + static_cast<uint32_t>(i)) % 7);
+                    c.last = c.rawStep;
+                    c.last.seed = len * 5 + 1;
+                    if (!same)
+                        c.last.len = len + 3;
+                    if (!emit(c))
+                        return;
+                }
     // Ethernet / analog: 0..300, boundaries, a few huge
     for (uint8_t cls : {uint8_t(pcEthernet), uint8_t(pcAnalog)})
     {
